@@ -836,6 +836,12 @@ func (e *Env) inlineSingle(f *ssa.Function, c *ssa.CallCommon, args []*Term, sit
 			return nil
 		case *ssa.Go, *ssa.Panic:
 			return nil
+		case *ssa.Call:
+			// a locked accessor written with an explicit Lock / Unlock pair is a locked accessor all the same: the matcher rules
+			// want to see it as a call
+			if cal := x.Common().StaticCallee(); !InlineLockedAccessors && cal != nil && cal.Pkg != nil && cal.Pkg.Pkg.Path() == "sync" && (cal.Name() == "Lock" || cal.Name() == "RLock") {
+				return nil
+			}
 		}
 	}
 	sub := &Env{Prog: e.Prog, Path: NewPath(f, f.Blocks[:1]), Subst: map[ssa.Value]*Term{}, Depth: e.Depth + 1,
